@@ -5,6 +5,7 @@ use crate::explore::e1::World;
 use crate::pool;
 use serde_json::{json, Value};
 
+pub mod bytesfam;
 pub mod c01;
 pub mod c02;
 pub mod c03;
